@@ -385,6 +385,10 @@ def check_rounding(r, payload, cfg, rec, cap, samples, hdr, tag):
                 continue
             val = per[s]
             got = rec["samples"][si].get(key)
+            invalid = bool(set(rec["filter"].split(";")) & {"NOA", "AF0"})
+            if key in ("AFP", "ACP", "AOP", "GP", "GL") and not invalid and (val is None or got in (None, ".")) and not (key == "GL" and got is not None):
+                r.violation("format-not-computed|%s|%s" % (cfg, key), "FORMAT/%s was requested but sample %s has no value (%r) on a callable record (%s)" % (key, s, got, tag), payload)
+                continue
             if got is None:
                 r.violation("format-missing|%s|%s" % (cfg, key), "requested FORMAT/%s not printed for %s (%s)" % (key, s, tag), payload)
                 continue
